@@ -334,7 +334,10 @@ fn plan(seed: u64) -> Plan {
                 Op::Rec { k, c, v, reps, hoist }
             } else {
                 gv += 1;
-                Op::Set { k: *gkeys.choose(&mut r).unwrap(), v: (t as i64 + 1) * 100_000 + i as i64 * 10 + gv % 10 }
+                // values are unique per call, except that thread 0 sometimes sets a gauge back to 0.0
+                // (never two such sets in flight at once)
+                let v = if t == 0 && r.random_bool(0.25) { 0 } else { (t as i64 + 1) * 100_000 + i as i64 * 10 + gv % 10 };
+                Op::Set { k: *gkeys.choose(&mut r).unwrap(), v }
             };
             s.push(op);
         }
@@ -550,7 +553,18 @@ fn cmd_seq(a: &HashMap<String, String>) {
                             let amount = st[2].as_u64().unwrap();
                             match k.kind {
                                 'c' => inc(k, amount, 1, id % 2 == 0),
-                                'g' => set(k, amount as i64),
+                                'g' => {
+                                    let g = metrics::gauge!(k.name.clone(), &k.labels);
+                                    match st[3].as_str().unwrap_or("set") {
+                                        "set" => g.set(amount as f64),
+                                        "set0" => g.set(0.0),
+                                        "setneg0" => g.set(-0.0),
+                                        "inc" => g.increment(amount as f64),
+                                        // decrement by the current value: back to exactly 0.0
+                                        "dec0" => g.decrement(amount as f64),
+                                        gop => panic!("tool: unknown gauge op {gop}"),
+                                    }
+                                }
                                 _ => {
                                     let v = match st[3].as_str().unwrap_or("v100") {
                                         "v100" => 100.0,
@@ -779,12 +793,167 @@ fn cmd_rep(a: &HashMap<String, String>) {
     out.flush().unwrap();
 }
 
+// ------------------------------------------------------------------------------------------
+// lonely: one record racing a readout loop, with no later record on the key before it is checked
+// ------------------------------------------------------------------------------------------
+/// Many cheap rounds: the updater records k samples on one histogram key at a random phase of a
+/// reader thread that reads out in a loop, then waits until two more readouts that started after
+/// the record returned have finished - without touching the key again. By then every sample must
+/// have been reported (BridgeObs: samples ended before a readout starts <= cumulative reported).
+/// Rounds that satisfy this are logged summed up (count form); the first round that does not is
+/// logged on its own, and the batch ends there. The trace is validated by MetricsBridgeTrace.tla.
+fn lonely_batch(batch: u64, seed: u64, rounds: u64) -> (Vec<J>, J) {
+    use std::sync::atomic::AtomicU64;
+    let _ = trace::take();
+    let rec: Recorder = MetricRecorder::new();
+    let key = KeyDef { kind: 'h', name: "lonely.latency".into(), labels: vec![("batch".into(), batch.to_string())] };
+    let class = 1usize; // CLASSES[1] = 3: an early bucket, reached by the drain right after its first step
+    let value = CLASSES[class].0 as f64;
+    trace::ev(json!({"ev": "Reset", "run": batch, "emit_zero": false,
+                     "classes": CLASSES.iter().map(|(v, u)| json!([v / u, u])).collect::<Vec<_>>(), "keys": [key.json()]}));
+    let started = Arc::new(AtomicU64::new(0));
+    let done = Arc::new(AtomicU64::new(0));
+    let reported = Arc::new(AtomicU64::new(0));
+    let stop = Arc::new(AtomicBool::new(false));
+    // anything a readout wrote that is not "n samples of the key in a bucket of mean `value`"
+    let odd: Arc<std::sync::Mutex<Vec<J>>> = Arc::new(std::sync::Mutex::new(Vec::new()));
+    let reader = {
+        let (rec, started, done, reported, stop, odd, key) =
+            (rec.clone(), started.clone(), done.clone(), reported.clone(), stop.clone(), odd.clone(), key.clone());
+        std::thread::spawn(move || {
+            while !stop.load(Ordering::SeqCst) {
+                started.fetch_add(1, Ordering::SeqCst);
+                let items = match util::catch(|| replay_entry(&rec.readout())) {
+                    Ok(i) => i,
+                    Err(p) => {
+                        odd.lock().unwrap().push(json!({"kind": "panic", "name": p, "dims": [], "unit": "", "v": 0, "obs": []}));
+                        vec![]
+                    }
+                };
+                let mut n = 0u64;
+                for it in &items {
+                    let plain = it.kind == "h" && it.name == key.name && it.dims == key.labels && it.unit == "None"
+                        && it.obs.iter().all(|(t, o)| *o == 0 || *t == value * *o as f64);
+                    if plain {
+                        n += it.obs.iter().map(|(_, o)| *o).sum::<u64>();
+                    } else {
+                        odd.lock().unwrap().push(it.json());
+                    }
+                }
+                reported.fetch_add(n, Ordering::SeqCst);
+                done.fetch_add(1, Ordering::SeqCst);
+            }
+        })
+    };
+    let item = |n: u64| {
+        json!({"kind": "h", "name": key.name, "dims": key.labels.iter().map(|(k, v)| json!([k, v])).collect::<Vec<_>>(),
+               "unit": "None", "v": 0, "obs": [obs_json(value * n as f64, n)]})
+    };
+    let mut r = util::rng(seed);
+    let mut recorded = 0u64; // total recorded
+    let mut logged = 0u64; // recorded and reported totals already in the log (equal by construction)
+    let mut rounds_done = 0u64;
+    let mut failed: Option<u64> = None;
+    metrics::with_local_recorder(&rec, || {
+        let h = metrics::histogram!(key.name.clone(), &key.labels);
+        for round in 1..=rounds {
+            for _ in 0..r.random_range(0..512u32) {
+                std::hint::spin_loop();
+            }
+            let k = if r.random_bool(0.9) { 1 } else { r.random_range(2..=3u64) };
+            for _ in 0..k {
+                h.record(value);
+            }
+            recorded += k;
+            // two readouts that started after the record returned must have finished
+            let s = started.load(Ordering::SeqCst);
+            let t0 = std::time::Instant::now();
+            while done.load(Ordering::SeqCst) < s + 2 {
+                std::hint::spin_loop();
+                if t0.elapsed().as_secs() > 20 {
+                    panic!("tool: the reader thread makes no progress");
+                }
+            }
+            rounds_done = round;
+            let rep = reported.load(Ordering::SeqCst);
+            let has_odd = !odd.lock().unwrap().is_empty();
+            if rep != recorded || has_odd {
+                // the agreeing rounds so far, summed up
+                let ok = recorded - k - logged;
+                if ok > 0 {
+                    trace::ev(json!({"ev": "RecStart", "t": 0, "k": 1, "c": class + 1, "v": "3e0", "n": ok}));
+                    trace::ev(json!({"ev": "RecEnd", "t": 0, "k": 1, "c": class + 1, "v": "3e0", "n": ok}));
+                    trace::ev(json!({"ev": "ReadoutStart"}));
+                    trace::ev(json!({"ev": "ReadoutEnd", "final": false, "items": [item(ok)]}));
+                    logged += ok;
+                }
+                // this round: the record call, then the readouts that started after it returned
+                trace::ev(json!({"ev": "RecStart", "t": 0, "k": 1, "c": class + 1, "v": "3e0", "n": k, "round": round}));
+                trace::ev(json!({"ev": "RecEnd", "t": 0, "k": 1, "c": class + 1, "v": "3e0", "n": k, "round": round}));
+                trace::ev(json!({"ev": "ReadoutStart"}));
+                let mut items = vec![item(rep.saturating_sub(logged))];
+                items.extend(odd.lock().unwrap().drain(..));
+                trace::ev(json!({"ev": "ReadoutEnd", "final": false, "items": items, "round": round}));
+                logged = rep;
+                failed = Some(round);
+                break;
+            }
+        }
+    });
+    stop.store(true, Ordering::SeqCst);
+    reader.join().expect("tool: reader join");
+    if failed.is_none() {
+        let ok = recorded - logged;
+        if ok > 0 {
+            trace::ev(json!({"ev": "RecStart", "t": 0, "k": 1, "c": class + 1, "v": "3e0", "n": ok}));
+            trace::ev(json!({"ev": "RecEnd", "t": 0, "k": 1, "c": class + 1, "v": "3e0", "n": ok}));
+            trace::ev(json!({"ev": "ReadoutStart"}));
+            trace::ev(json!({"ev": "ReadoutEnd", "final": false, "items": [item(ok)]}));
+        }
+        // nothing is left for a last readout
+        trace::ev(json!({"ev": "ReadoutStart"}));
+        let items: Vec<J> = replay_entry(&rec.readout()).iter().map(|i| i.json()).collect();
+        trace::ev(json!({"ev": "ReadoutEnd", "final": true, "items": items}));
+    }
+    let events = trace::take();
+    let meta = json!({"run": batch, "seed": seed, "rounds": rounds_done, "samples": recorded,
+                      "readouts": done.load(Ordering::SeqCst), "failed_round": failed, "events": events.len()});
+    (events, meta)
+}
+
+fn cmd_lonely(a: &HashMap<String, String>) {
+    let rounds = util::arg_u64(a, "rounds", 100_000);
+    let per_batch = util::arg_u64(a, "batch", 10_000);
+    let seed = util::arg_u64(a, "seed", 1);
+    let mut out = std::io::BufWriter::new(std::fs::File::create(util::arg_str(a, "out", "")).expect("create out"));
+    let mut meta = std::io::BufWriter::new(std::fs::File::create(util::arg_str(a, "meta", "")).expect("create meta"));
+    let mut line = 0usize;
+    let mut left = rounds;
+    let mut batch = 0u64;
+    while left > 0 {
+        batch += 1;
+        let n = left.min(per_batch);
+        left -= n;
+        let (events, mut m) = lonely_batch(batch, seed.wrapping_mul(1_000_003).wrapping_add(batch), n);
+        trace::append_ndjson(&mut out, &events).unwrap();
+        m["id"] = json!(batch);
+        m["first_line"] = json!(line + 1);
+        m["last_line"] = json!(line + events.len());
+        line += events.len();
+        serde_json::to_writer(&mut meta, &m).unwrap();
+        meta.write_all(b"\n").unwrap();
+    }
+    out.flush().unwrap();
+    meta.flush().unwrap();
+}
+
 fn main() {
     let (cmd, a) = util::args();
     match cmd.as_str() {
         "record" => cmd_record(&a),
         "seq" => cmd_seq(&a),
         "rep" => cmd_rep(&a),
+        "lonely" => cmd_lonely(&a),
         _ => {
             eprintln!("usage: mb record|seq|rep ...");
             std::process::exit(2);
